@@ -729,6 +729,11 @@ fn one_iteration(
         return None;
     }
     let mut steps: Vec<Value> = vec![];
+    // a scenario that planned a large book (dozens of raw records) gets the steps it needs on top of the budget
+    let max_steps = max_steps + match &scn {
+        G::New(s) => s.planned_len().saturating_sub(8),
+        _ => 0,
+    };
     for i in 0..max_steps {
         let step = match &mut scn {
             G::Old(s) => s.gen_step(rng, &world),
